@@ -5,6 +5,7 @@ CONSTANTS
   MaxReplies = 1000
   LeakOnSendError = FALSE
   MatchCreation = TRUE
+  SeqCallers = FALSE
   RemoveOnTimeout = TRUE
 INVARIANT OwnReplyOnly
 INVARIANT AtMostOnce
